@@ -220,7 +220,19 @@ def strategy(tier):
     from hypothesis import strategies as st
 
     prof = PROFILE_Q if tier == "quick" else PROFILE_T
-    return st.builds(lambda p, sh: dict(p, config={"shuffle": sh}), gen.programs(prof), st.sampled_from(["tasks", "tasks", "disk"]))
+    return st.builds(_configure, gen.programs(prof), st.sampled_from(["tasks", "tasks", "disk"]))
+
+
+def _configure(p, sh):
+    """known findings D9 / D44 / D70 (order-dependent groupby operations under the disk shuffle) are excluded by construction: such a
+    program runs under the tasks shuffle instead (counted as class known_shape_rerouted); the catalogue keeps the final-step canaries"""
+    if sh == "disk":
+        for s in p["steps"]:
+            a = s.get("args", {})
+            hows = {a.get("how")} | set((a.get("agg") or {}).values())
+            if (s["op"] == "groupby_window" and a.get("how") in ("ffill", "bfill", "shift")) or (s["op"] == "groupby_agg" and (a.get("split_out") or 1) > 1 and hows & {"first", "last"}):
+                return dict(p, config={"shuffle": "tasks"}, rerouted=True)
+    return dict(p, config={"shuffle": sh})
 
 
 def n_random(tier):
@@ -266,7 +278,7 @@ def check(case):
         prog, t = expand(case)
     out_id = prog["out"][0]
     failures = []
-    classes = ["fam:" + t["fam"]]
+    classes = ["fam:" + t["fam"]] + (["known_shape_rerouted"] if prog.get("rerouted") else [])
     counters = {}
     with plans.config(prog.get("config")), warnings.catch_warnings():
         warnings.simplefilter("ignore")
